@@ -23,7 +23,10 @@
        DSet      `self._shutdown.set()`
        wait=False: DAcquire `with self._lock, ThreadPoolExecutor()`; one cancel task per
                  registered future (DCancel pending, any order); leaving the `with`
-       wait=True:  DSnap `list(self._futures)` (no lock); DJoin: `future.result()` each
+       wait=True:  DSnap `list(self._futures)` (no lock); DJoin: `future.result()` each --
+                 result() re-raises the future's `_exception`, and _join suppresses only
+                 CancelledError: the first failed / timed-out job makes shutdown() raise
+                 (DRaised) and the remaining futures are not waited for
    PopenFuture.cancel(): `if not self.is_running(): return` -- a no-op while
    `self.process is None` or after the process has terminated; otherwise kills it.  *)
 From Coq Require Import List Arith Bool.
@@ -36,7 +39,7 @@ Inductive spc_t := SCheck | SAcquire | SAppend | SStart | SRelease | SWait
                  | SGot (v : verdict) | SRejected.
 Inductive wpc_t := WNew | WStarted | WComm | WFinally | WSetRes | WDone.
 Inductive dpc_t := DSet | DAcquire | DCancel (pending : list nat) | DSnap
-                 | DJoin (pending : list nat) | DDone.
+                 | DJoin (pending : list nat) | DDone | DRaised.
 Inductive owner := OSub (j : nat) | OSd (k : nat).
 
 Record job := mkJob {
@@ -142,6 +145,12 @@ Definition finished (st : state) (j : nat) : bool :=   (* Future._state == FINIS
   | None => false
   end.
 
+Definition failed (st : state) (j : nat) : bool :=     (* future._exception is not None *)
+  match nth_error (jobs st) j with
+  | Some jb => match exc jb with Some _ => true | None => false end
+  | None => false
+  end.
+
 (* ---- the step function -------------------------------------------------------- *)
 Definition step (st : state) (l : label) : option state :=
   match l with
@@ -229,7 +238,13 @@ Definition step (st : state) (l : label) : option state :=
         | _ => None end)
   | LSdJoin k =>
       on_sd st k (fun s => match dpc s with
-        | DJoin (j :: rest) => if finished st j then Some (mkSd (swait s) (DJoin rest), st) else None
+        | DJoin (j :: rest) =>
+            if finished st j && negb (failed st j) then Some (mkSd (swait s) (DJoin rest), st) else None
+        | _ => None end)
+  | LSdRaise k =>
+      on_sd st k (fun s => match dpc s with
+        | DJoin (j :: rest) =>
+            if finished st j && failed st j then Some (mkSd (swait s) DRaised, st) else None
         | _ => None end)
   | LSdReturn k =>
       on_sd st k (fun s => match dpc s with
@@ -254,7 +269,7 @@ Definition all_labels (st : state) : list label :=
      LCommRet j AUnsat; LCommRet j ASat; LCommRet j AUnknown; LCommRet j AGarbage;
      LCommTimeout j; LCommExc j; LFinally j; LSetResult j]) js
   ++ flat_map (fun k =>
-    [LSdSet k; LSdAcquire k; LSdSnap k; LSdJoin k; LSdReturn k]
+    [LSdSet k; LSdAcquire k; LSdSnap k; LSdJoin k; LSdRaise k; LSdReturn k]
     ++ map (fun j => LSdCancel k j) js) ks.
 
 Definition is_some {A} (o : option A) : bool := match o with Some _ => true | None => false end.
@@ -278,6 +293,6 @@ Definition phi (st : state) : nat := length (reg st) + sum pre_append (jobs st).
 Definition rank_sd (ph : nat) (s : sd) : nat :=
   match dpc s with
   | DSet => 5 + ph | DAcquire => 4 + ph | DSnap => 4 + ph
-  | DCancel l => 2 + length l | DJoin l => 2 + length l | DDone => 0
+  | DCancel l => 2 + length l | DJoin l => 2 + length l | DDone => 0 | DRaised => 0
   end.
 Definition rank (st : state) : nat := sum rank_job (jobs st) + sum (rank_sd (phi st)) (sds st).
